@@ -403,6 +403,21 @@ def main(argv):
         rp = write_replay(prop, "proof-broken", {"property": prop, "kind": "proof", "no_longer_checks": proof_broken, "coq_log_tail": coq_log[-3000:]})
         violations.append("VIOLATION property=%s replay=%s no-failing-input-found" % (prop, rp))
 
+    # thorough tier: independent re-check of the compiled theorems and their
+    # whole dependency cone with coqchk (lists the axioms of everything loaded)
+    coqchk_report = None
+    if a.tier == "thorough" and not a.replay and not proof_broken:
+        mods = ["Verif." + rel[:-2].replace("/", ".") for rel in cfg["properties_files"]]
+        with Lock("coq"):
+            rc, out = sh(["coqchk", "-silent", "-o", "-Q", COQ, "Verif"] + mods, cwd=COQ, timeout=3000)
+        m = re.search(r"\* Axioms:(.*?)\n\s*\n", out, flags=re.S)
+        axioms = (m.group(1).strip() if m else "?")
+        coqchk_report = {"rc": rc, "axioms": axioms, "modules": mods}
+        if rc != 0 or axioms != "<none>":
+            proof_broken.append("coqchk: rc=%d axioms=%s" % (rc, axioms[:200]))
+            rp = write_replay(prop, "coqchk", {"property": prop, "kind": "proof", "no_longer_checks": "coqchk re-check of " + " ".join(mods), "log_tail": out[-3000:]})
+            violations.append("VIOLATION property=%s replay=%s no-failing-input-found" % (prop, rp))
+
     # 6. evidence
     wall = time.time() - t0
     cov = {
@@ -412,6 +427,7 @@ def main(argv):
         "trusted_base": GENERIC_TRUSTED + cfg.get("trusted", []),
         "theorems": names,
         "print_assumptions": areport,
+        "coqchk": coqchk_report,
         "evaluations": (report or {}).get("evaluations", 0),
         "distinct_nontrivial": (report or {}).get("distinct_nontrivial", 0),
         "traces_validated_against_impl": (report or {}).get("evaluations", 0) if not corr_broken else 0,
